@@ -16,8 +16,8 @@ def bounded(tier, seed, fallback_for):
 
 MANIFEST = {
     "category": "exploration",
-    "technique": "bounded stand-in: real commands on generated temporary trees against independently computed expectations (contracts where listed in evidence)",
-    "text": 'The analysed set is recomputed independently on generated trees (bounded).',
-    "note": "bounded; the operating system, Pygments and pathspec are outside any contract we can discharge",
+    "technique": "contracts on the real functions discharged by z3/cvc5 (pyvc) for the per-call obligations; bounded stand-in on generated temporary trees for the whole statement",
+    "text": 'scan_path is under contract and discharged for all inputs against the os.walk / pathspec / Pygments contracts: hidden directories are pruned in place, hidden files are never considered, excluded files are skipped, _scan_file is called once per remaining file whose lexer names a supported language, keyed by the root-relative path. The statement is also explored on generated trees (bounded): exclusion sets via option, .gitignore and config file, three ways of naming the root, extension-less names, files with blank lines.',
+    "note": 'relative to the assumed contracts of os.walk, pathspec.match_file, get_lexer_for_filename and calculate_checksum',
     "design_ref": "DESIGN.md §6 C11",
 }
